@@ -12,7 +12,7 @@ Proof. repeat split. Qed.
 Ltac side := cbn; repeat split; reflexivity.
 Ltac core := cbn; repeat split; reflexivity.
 
-Lemma inv_exp_some w : InvS w -> exists e, w_exp w = Some e /\ e_deleting e = false /\ counts_nonneg (es_counts (e_st e)).
+Lemma inv_exp_some w : InvS w -> exists e, w_exp w = Some e /\ e_deleting e = false /\ status_ok w (e_st e).
 Proof. intros [_ (e&ce&He&_&_&D&_&N&_) _ _ _ _ _ _ _]. eauto. Qed.
 
 Lemma inv_trial_not_deleting w n t : InvS w -> find_trial n (w_trials w) = Some t -> t_deleting t = false.
